@@ -28,8 +28,14 @@ func vfPolicyURI(pi int) string {
 
 // vfNewEnd builds a channel end over a TCP model whose peer sends stream.
 func vfNewEnd(tag string, kind channelKind, pi int, mode ua.MessageSecurityMode, localNonce, remoteNonce []byte, ack *uacp.Acknowledge, stream []byte, chanID, tokenID, seq uint32) *vfEnd {
+	return vfNewEndOn(vfTCP(tag, stream), kind, pi, mode, localNonce, remoteNonce, ack, chanID, tokenID, seq)
+}
+
+// vfNewEndOn: the same over a given connection (e.g. one end of a pipe).
+func vfNewEndOn(tcp *net.TCPConn, kind channelKind, pi int, mode ua.MessageSecurityMode, localNonce, remoteNonce []byte, ack *uacp.Acknowledge, chanID, tokenID, seq uint32) *vfEnd {
+	tag := "end"
 	e := &vfEnd{errs: make(chan error, 8)}
-	e.tcp = vfTCP(tag, stream)
+	e.tcp = tcp
 	conn, err := uacp.NewConn(e.tcp, ack)
 	vfAssert(err == nil, "uacp.NewConn fails")
 	cfg := &Config{SecurityPolicyURI: vfPolicyURI(pi), SecurityMode: mode}
